@@ -315,33 +315,54 @@ def _run(ctx):
               'the mempool set recorded at the notified height is taken (KeyError if there is none)',
               'the notification is not preceded by taking the mempool set recorded at that height', loc=ctx.loc(mn, ncall))
     # older entries: only heights <= the notified height are swept
+    def containers(e):
+        """the pending containers an iterable expression ranges over: itself, or - for the variable of an enclosing
+        `for pending in (self._touched_mp, self._touched_bp):` - every member of that display"""
+        c_ = cpath(e)
+        if c_ in PENDING:
+            return [c_]
+        if isinstance(e, ast.Name):
+            for lp_ in mn.own_nodes():
+                if isinstance(lp_, ast.For) and isinstance(lp_.target, ast.Name) and lp_.target.id == e.id and isinstance(lp_.iter, (ast.Tuple, ast.List)):
+                    got = [cpath(x) for x in lp_.iter.elts]
+                    if got and all(g_ in PENDING for g_ in got):
+                        return got
+        return []
     n_s = 0
     for loop in [s for s in mn.own_nodes() if isinstance(s, ast.For)]:
         it = loop.iter
         if isinstance(it, ast.ListComp) and len(it.generators) == 1:
             g = it.generators[0]
-            cont = cpath(g.iter)
-            if cont in PENDING:
-                n_s += 1
+            conts = containers(g.iter)
+            if conts:
                 okc = len(g.ifs) == 1 and q.cmp_matches(ctx, mn, g.ifs[0], f'{norm(g.target)} <= {hvar.id}') and norm(it.elt) == norm(g.target)
                 swept = [c for c in walk_own(loop) if isinstance(c, ast.Call) and isinstance(c.func, ast.Attribute)
-                         and c.func.attr == 'pop' and cpath(c.func.value) == cont and norm(c.args[0]) == norm(loop.target)]
-                ctx.check(okc and len(swept) == 1, 'C20.SWEEP', ctx.key(mn, loop),
-                          f'all entries of {cont} at heights <= the notified height are merged into the notification',
-                          f'the sweep over {cont} does not cover exactly the heights <= the notified height', loc=ctx.loc(mn, loop))
+                         and c.func.attr == 'pop' and norm(c.func.value) == norm(g.iter) and norm(c.args[0]) == norm(loop.target)]
+                for cont in conts:
+                    n_s += 1
+                    ctx.check(okc and len(swept) == 1, 'C20.SWEEP', ctx.key(mn, loop, cont),
+                              f'all entries of {cont} at heights <= the notified height are merged into the notification',
+                              f'the sweep over {cont} does not cover exactly the heights <= the notified height', loc=ctx.loc(mn, loop))
     # any other loop that pops from a pending container by its loop variable is a sweep of another spelling: it must look at
     # EVERY key (heights are not in ascending insertion order once they go down after a reorganisation)
     for loop in [s for s in mn.own_nodes() if isinstance(s, ast.For)]:
         it = loop.iter
-        if isinstance(it, ast.ListComp) and len(it.generators) == 1 and cpath(it.generators[0].iter) in PENDING:
+        if isinstance(it, ast.ListComp) and len(it.generators) == 1 and containers(it.generators[0].iter):
             continue
         popped = [c for c in walk_own(loop) if isinstance(c, ast.Call) and isinstance(c.func, ast.Attribute) and c.func.attr == 'pop'
-                  and cpath(c.func.value) in PENDING and c.args and norm(c.args[0]) == norm(loop.target)]
+                  and containers(c.func.value) and c.args and norm(c.args[0]) == norm(loop.target)]
         if popped:
             n_s += 1
             ctx.bad('C20.SWEEP', ctx.key(mn, loop), f'the sweep iterates `{norm(it)[:70]}`: it does not examine every pending height (a prefix / '
                     'ordered walk stops at the first greater key), so a set pending at a lower height behind a higher key is neither merged '
                     'nor removed once heights have gone down', loc=ctx.loc(mn, loop))
+    # both containers are swept
+    swept_all = set()
+    for loop in [s for s in mn.own_nodes() if isinstance(s, ast.For)]:
+        if isinstance(loop.iter, ast.ListComp) and len(loop.iter.generators) == 1:
+            swept_all |= set(containers(loop.iter.generators[0].iter))
+    ctx.check(swept_all == set(PENDING), 'C20.SWEEP', ctx.key(mn, None, 'both containers swept'),
+              'the mempool and the block container are both swept', f'only {sorted(swept_all)} swept', loc=ctx.loc(mn, mn.node))
     ctx.floor('C20.SWEEP', 2, n_s)
 
     # ------------------------------------------------------------------ RECORD
